@@ -42,6 +42,12 @@ contract(
         "implies(window(result[0])[1] is not None, window(result[0])[1] - window(result[0])[0] == result[1] and window(result[0])[0] >= 0)",
         "is_reversed(result[0]) == self.reversed",
         "result[1] >= 0",
+        # where the loop stopped is remembered under the loop's key on *every* path (reversed or not), for a later `offset: continue`
+        "implies(limit is None and offset is None, context.tag_namespace['stopindex'][f'{self.identifier}-{self.iterable}'] == length)",
+        "implies(not (limit is None and offset is None), context.tag_namespace['stopindex'][f'{self.identifier}-{self.iterable}'] == window(result[0])[1])",
+        # ... and `offset: continue` resumes exactly there (0 when the loop has not run before)
+        "implies(offset == 'continue' and f'{self.identifier}-{self.iterable}' in old(context.tag_namespace['stopindex']), window(result[0])[0] == old(context.tag_namespace['stopindex'])[f'{self.identifier}-{self.iterable}'])",
+        "implies(offset == 'continue' and f'{self.identifier}-{self.iterable}' not in old(context.tag_namespace['stopindex']), window(result[0])[0] == 0)",
         "forall(lambda k: implies(k in context.tag_namespace['stopindex'], context.tag_namespace['stopindex'][k] >= 0), 'str')",
     ],
     raises={},     # whatever limit/offset: no ValueError from islice, no AssertionError
